@@ -15,7 +15,45 @@ import (
 	kio "github.com/flanglet/kanzi-go/v2/io"
 )
 
-func init() { commands["ctm"] = runCtm }
+func init() { commands["ctm"] = runCtm; commands["xxm"] = runXxm }
+
+// xxm: XXHash32 / XXHash64 (seed = bit stream type, as the container uses them) against Model/XXHash.v:
+// every length 0..130 (all the tail paths: 32/16-byte stripes, 8- and 4-byte words, single bytes), then random lengths
+func runXxm(c *Ctx, _ []string) {
+	r := NewRng(c.Seed ^ 0x7878)
+	cases := c.W("cases.txt")
+	gout := c.W("go.txt")
+	h32, _ := hash.NewXXHash32(0x4B414E5A)
+	h64, _ := hash.NewXXHash64(0x4B414E5A)
+	one := func(data []byte) {
+		hx := "-"
+		if len(data) > 0 {
+			hx = hex.EncodeToString(data)
+		}
+		fmt.Fprintf(cases, "xx 1 %s\n", hx)
+		fmt.Fprintf(gout, "%d\n", h32.Hash(data))
+		fmt.Fprintf(cases, "xx 2 %s\n", hx)
+		fmt.Fprintf(gout, "%d\n", h64.Hash(data))
+		c.Count("evaluations", 2)
+	}
+	for n := 0; n <= 130; n++ {
+		one(genData(r, []string{"random", "text", "zeros"}[n%3], n)[:n])
+	}
+	for i := 0; i < 60*c.Scale; i++ {
+		n := r.Range(131, 5000)
+		d := genData(r, []string{"random", "text", "runs", "zeros"}[r.Intn(4)], n)
+		if len(d) > n {
+			d = d[:n]
+		}
+		if r.Intn(4) == 0 {
+			for j := range d {
+				d[j] = 0xFF
+			}
+		}
+		one(d)
+	}
+	c.Stats["distinct_nontrivial"] = 2 * (131 + 60*c.Scale)
+}
 
 func runCtm(c *Ctx, _ []string) {
 	r := NewRng(c.Seed ^ 0xc7a1)
